@@ -189,6 +189,11 @@ pub fn run(args: &Args, which: &str) -> SubResult {
         Move { name: "remove u".into(), ops: vec!["remove N u".into()] },
         Move { name: "hr".into(), ops: vec!["hr".into()] },
         Move { name: "r0 (no pass)".into(), ops: vec!["put r0.r x2".into(), "ev F:r0.r".into()] },
+        // a key that is removed and loaded again under another script: the second incarnation must
+        // be judged by what *it* recorded (edges of the first incarnation may not survive in the graph)
+        Move { name: "u->r1 (silent)".into(), ops: vec!["put u.n F:r1".into()] },
+        Move { name: "u->r0 (silent)".into(), ops: vec!["put u.n F:r0".into()] },
+        Move { name: "take u".into(), ops: vec!["take N u".into()] },
     ];
     let n_orphan = if c06 { orphan_moves.len() } else { 0 };
     let total = cases.len() + n_orphan;
